@@ -536,12 +536,18 @@ pub fn two(seed: u64) -> Program {
     let shared_name = g.rng.pick(&["store", "twin"]);
     let mut stores = vec![];
     let mut reds_of = vec![];
+    // twins under pressure: both stores with the same drop policy, tiny queues and reducers that are
+    // sometimes slow, so that both queues are full at the same time
+    let twins = if g.rng.chance(15) { Some(g.rng.pick(&[Policy::DropOldest, Policy::DropLatest])) } else { None };
     for s in 0..2 {
         let nred = g.rng.range(1, 2) as u32;
         // "the same reducer type": same tags on both stores
         let reds: Vec<u32> = (0..nred).collect();
-        let policy = if g.rng.chance(70) { Policy::Block } else { g.rng.pick(&[Policy::DropOldest, Policy::DropLatest]) };
-        let cap = g.rng.pick(&CAPS);
+        let policy = match twins {
+            Some(p) => p,
+            None => if g.rng.chance(70) { Policy::Block } else { g.rng.pick(&[Policy::DropOldest, Policy::DropLatest]) },
+        };
+        let cap = if twins.is_some() { g.rng.pick(&[1usize, 1, 2]) } else { g.rng.pick(&CAPS) };
         // equal names: the default one or an explicit one; different names otherwise
         let name = if same_name { shared_name.to_string() } else { format!("store{s}") };
         let builder = g.canonical_builder(&name, cap, policy, &reds, &[]);
@@ -567,6 +573,10 @@ pub fn two(seed: u64) -> Program {
         for _ in 0..n {
             let s = g.rng.below(2) as usize;
             let a = g.plain_act(&reds_of[s].clone(), 10);
+            if twins.is_some() && g.rng.chance(25) {
+                let r0 = reds_of[s][0];
+                g.acts.get_mut(&a).unwrap().red.entry(r0).or_default().sleep_ms = 1;
+            }
             let via = g.via();
             ops.push(Op::Dispatch { store: s, act: a, via });
             if g.rng.chance(10) {
